@@ -45,8 +45,8 @@ def _opts(case):
         salt=case["salt"],
         sensitive_words=list(WORDS) if words else None,
         as_numbers=list(ASNS) if asn else None,
-        preserve_suffix_v4=8,
-        preserve_suffix_v6=8,
+        preserve_suffix_v4=case.get("B", 8),
+        preserve_suffix_v6=case.get("B", 8),
     )
 
 
@@ -108,9 +108,13 @@ def check_tree(case, ev):
     try:
         src, dst = os.path.join(d, "in put"), os.path.join(d, "out")
         _write_tree(src, files, case.get("emptydirs", []))
+        if case.get("nested_out"):
+            # `netconan -i . -o ./anonymized` with the (empty) output directory already there
+            dst = os.path.join(src, "anonymized")
+            os.makedirs(dst, exist_ok=True)
         pre = {}
-        if case.get("preexisting"):
-            os.makedirs(dst)
+        if case.get("preexisting") and not case.get("nested_out"):
+            os.makedirs(dst, exist_ok=True)
             with open(os.path.join(dst, "keep.txt"), "wb") as fh:
                 fh.write(b"unrelated\n")
             pre["keep.txt"] = b"unrelated\n"
@@ -181,6 +185,7 @@ def check_tree(case, ev):
         dst3 = os.path.join(d, "cli-out")
         argv = ["-i", src2, "-o", dst3, "-s", case["salt"]]
         pwd, ip, words, asn = case["features"]
+        argv += ["--preserve-host-bits", str(case.get("B", 8))] if case.get("B", 8) != 8 or case.get("single") else []
         argv += (["-p"] if pwd else []) + (["-a"] if ip else []) + (["-w", ",".join(WORDS)] if words else []) + (["-n", ",".join(ASNS)] if asn else [])
         if any(case["features"]) and not case["salt"].startswith("-"):
             _, exc = guarded(main, argv)
@@ -264,7 +269,7 @@ def _text(draw, big=False):
         elif k == 3:
             lines.append("hostname zorgon-%d" % draw(st.integers(0, 9)))
         elif k == 4:
-            lines.append("router bgp 65001")
+            lines.append(draw(st.sampled_from(["router bgp 65001", "ipv6 address 2001:db8:%x::%x/64" % (draw(st.integers(0, 65535)), draw(st.integers(1, 65535))), "neighbor fe80::%x remote-as 123" % draw(st.integers(1, 65535))])))
         else:
             lines.append(draw(st.sampled_from(["!", "", "interface Gi0/1", "é ü", " description x"])))
     eol = draw(st.sampled_from(["\n", "\n", "\r\n"]))
@@ -303,6 +308,8 @@ def _case(draw):
         "features": draw(st.lists(st.booleans(), min_size=4, max_size=4).filter(any)),
         "salt": draw(st.sampled_from(["Tsalt", "s", "", "x y"])),
         "single": draw(st.booleans()),
+        "nested_out": draw(st.integers(0, 5)) == 0,
+        "B": draw(st.sampled_from([8, 8, 0, 12, 32])),
     }
 
 
